@@ -134,6 +134,46 @@ func (a *Act) reflectIntrinsic(name string, args []Value) (Value, bool) {
 		a.mayPanic(bad, "reflect: call of reflect.Value.FieldByName on non-struct Value")
 		out.nilG = Not(found)
 		return RV{iv: mergeSameTypes(out)}, true
+	case "(reflect.Value).FieldByNameFunc":
+		// the field whose name satisfies the predicate; the zero Value when none or several do
+		rv := args[0].(RV)
+		fn := args[1].(FuncV)
+		out := IfaceV{nilG: False}
+		bad := rv.iv.nilG
+		found := False
+		for _, al := range rv.iv.alts {
+			st, ok := al.typ.Underlying().(*types.Struct)
+			if !ok {
+				bad = Or(bad, al.g)
+				continue
+			}
+			sv := al.val.(StructV)
+			match := make([]*Term, st.NumFields())
+			for j := 0; j < st.NumFields(); j++ {
+				m, ok := a.callFunc(fn, []Value{ConcStr(st.Field(j).Name())}).(*Term)
+				if !ok {
+					panic(unsupported("FieldByNameFunc predicate"))
+				}
+				match[j] = m
+			}
+			for j := 0; j < st.NumFields(); j++ {
+				only := match[j]
+				for k := 0; k < st.NumFields(); k++ {
+					if k != j {
+						only = And(only, Not(match[k]))
+					}
+				}
+				g := And(al.g, only)
+				if g.IsFalse() {
+					continue
+				}
+				found = Or(found, g)
+				out.alts = append(out.alts, IfaceAlt{g: g, typ: st.Field(j).Type(), val: sv.f[j]})
+			}
+		}
+		a.mayPanic(bad, "reflect: call of reflect.Value.FieldByNameFunc on non-struct Value")
+		out.nilG = Not(found)
+		return RV{iv: mergeSameTypes(out)}, true
 	case "(reflect.Value).IsNil":
 		// nil-able kinds only (slice, pointer, interface, map, func, chan); panics on the others
 		rv := args[0].(RV)
